@@ -169,8 +169,8 @@ class Prop:
     def run(self, tier='quick', seed=0, only=None, verbose=False, keep=False):
         t0 = time.time()
         # partial runs (--only) get their own work directory and never overwrite the property's evidence file
-        self._partial = bool(only)
-        wd = os.path.join(WORK, self.id + ('_partial_%d' % os.getpid() if only else ''))
+        self._partial = bool(only) or bool(os.environ.get('VERIF_BUILD_FILTER'))
+        wd = os.path.join(WORK, self.id + ('_partial_%d' % os.getpid() if self._partial else ''))
         self._wd = wd
         shutil.rmtree(wd, ignore_errors=True)
         os.makedirs(wd, exist_ok=True)
@@ -186,6 +186,11 @@ class Prop:
         contracts = [c for c in self.contracts if (tier == 'thorough' or c.tier == 'quick')]
         if only:
             contracts = [c for c in contracts if re.search(only, c.fn)]
+        bf = os.environ.get('VERIF_BUILD_FILTER')   # debugging aid: restrict to builds matching a regex (treated like --only)
+        if bf:
+            contracts = [c for c in contracts if re.search(bf, c.build)]
+            only = only or bf
+            self._partial = True
         used_builds = sorted({c.build for c in contracts} | {c.rel[0] for c in contracts if getattr(c, 'rel', None)})
         builds = [self.builds[t] for t in used_builds]
         try:
@@ -463,6 +468,14 @@ class Prop:
                     reproduced = rp['clauses'][clause_name] == 'BREACHED' and rp.get('pre', True)
                 elif clause_key.startswith('safety:') or c.kind == 'U':
                     reproduced = rp.get('rc', 0) != 0 and ('runtime error' in rp.get('err', '') or rp.get('rc', 0) < 0)
+            if not reproduced and rp.get('ok') and rp.get('exe') and c.kind == 'F' and clause_name in rp.get('clauses', {}):
+                b_ = self.builds[c.build]
+                hit, hout = native_refuter(rp['exe'], b_.driver.shims[c.fn], clause_name)
+                if hit is not None:
+                    rec['verifier_inputs_not_reproduced'] = inputs
+                    rec['inputs'] = hit
+                    rec['replay'] = {'ok': True, 'out': hout, 'found_by': 'native refuter (boundary + random inputs on the real code)'}
+                    reproduced = True
             rec['reproduced_on_real_code'] = reproduced
             if not reproduced:
                 suffix = ' no-failing-input-found'
